@@ -163,7 +163,7 @@ const (
 var v18KName = []string{"socks", "http"}
 
 type v18MOp struct {
-	kind   string // listen close accept conn first rest abort basefail
+	kind   string // listen close accept conn first rest abort basefail zero
 	k      int    // protocol for listen/close/accept
 	i      int    // connection index
 	with   bool   // listen: start an accepter right away; first: send the whole stream in one write
@@ -193,6 +193,8 @@ type v18MConnSpec struct {
 	body    []byte
 	pattern []int // read sizes used by whoever accepts it
 	late    bool  // if the history ends before the first byte was sent: send everything then (else: close without sending)
+	zpre    int   // zero-length chunks delivered right before the first byte: dispatch's own Read sees (0, nil) first
+	zmid    int   // zero-length chunks between the first byte and the rest
 }
 
 type v18MCase struct {
@@ -209,7 +211,7 @@ func (c *v18MCase) String() string {
 		sb.WriteString(o.String())
 	}
 	for i, s := range c.conns {
-		fmt.Fprintf(&sb, "\n  conn%d first=%02x body=%x reads=%v late=%v", i, s.fb, s.body, s.pattern, s.late)
+		fmt.Fprintf(&sb, "\n  conn%d first=%02x body=%x reads=%v late=%v zero-chunks(before first byte=%d, behind it=%d)", i, s.fb, s.body, s.pattern, s.late, s.zpre, s.zmid)
 	}
 	return sb.String()
 }
@@ -247,9 +249,9 @@ func v18GenMCase(rt *rapid.T) *v18MCase {
 		for i, s := range stage {
 			switch s {
 			case 0:
-				cs = append(cs, cand{v18MOp{kind: "first", i: i}, 10}, cand{v18MOp{kind: "abort", i: i}, 1})
+				cs = append(cs, cand{v18MOp{kind: "first", i: i}, 10}, cand{v18MOp{kind: "abort", i: i}, 1}, cand{v18MOp{kind: "zero", i: i}, 3})
 			case 1:
-				cs = append(cs, cand{v18MOp{kind: "rest", i: i}, 3}, cand{v18MOp{kind: "abort", i: i}, 1})
+				cs = append(cs, cand{v18MOp{kind: "rest", i: i}, 3}, cand{v18MOp{kind: "abort", i: i}, 1}, cand{v18MOp{kind: "zero", i: i}, 1})
 			}
 		}
 		tot := 0
@@ -302,6 +304,8 @@ func v18GenMCase(rt *rapid.T) *v18MCase {
 			}
 			sp.pattern = rapid.SampledFrom(v18Patterns).Draw(rt, "reads")
 			sp.late = rapid.IntRange(0, 3).Draw(rt, "late") > 0
+			sp.zpre = rapid.SampledFrom([]int{0, 0, 0, 1, 1, 2, 3}).Draw(rt, "zeroBeforeFirst")
+			sp.zmid = rapid.SampledFrom([]int{0, 0, 0, 1, 2}).Draw(rt, "zeroBehindFirst")
 			c.conns = append(c.conns, sp)
 		case "first":
 			op.with = rapid.Bool().Draw(rt, "wholeStream")
@@ -592,12 +596,21 @@ func (r *v18MRun) step(op v18MOp) {
 				expect = "closed"
 			}
 		}
-		b := []byte{c.spec.fb}
-		if op.with {
-			b = append(b, c.spec.body...)
+		for z := 0; z < c.spec.zpre; z++ {
+			_, _ = c.cli.Write(nil) // dispatch's Read returns (0, nil): not a byte, not an end
+			r.cls["zero-chunk-before-first-byte"] = true
 		}
-		_, _ = c.cli.Write(b)
-		c.sent = append(c.sent, b...)
+		if op.with && c.spec.zmid == 0 {
+			b := append([]byte{c.spec.fb}, c.spec.body...)
+			_, _ = c.cli.Write(b)
+			c.sent = append(c.sent, b...)
+		} else {
+			_, _ = c.cli.Write([]byte{c.spec.fb})
+			c.sent = append(c.sent, c.spec.fb)
+			if op.with {
+				r.sendRest(c)
+			}
+		}
 		c.sentFB = true
 		if op.with {
 			_ = c.cli.CloseWrite()
@@ -628,23 +641,63 @@ func (r *v18MRun) step(op v18MOp) {
 			note("skip")
 			return
 		}
-		if len(c.spec.body) > 0 {
-			_, _ = c.cli.Write(c.spec.body)
-			c.sent = append(c.sent, c.spec.body...)
-		}
+		r.sendRest(c)
 		_ = c.cli.CloseWrite()
 		c.finished = true
+	case "zero":
+		// a zero-length chunk: whoever reads the connection next sees (0, nil). Before the first
+		// byte that reader is dispatch itself; it has to keep waiting for a real byte.
+		c := r.conns[op.i]
+		if !c.injected || c.finished {
+			note("skip")
+			return
+		}
+		strict := op.settle && r.prevSettled && !c.sentFB
+		var before int
+		if strict {
+			before = len(r.deliveries(op.i))
+		}
+		_, _ = c.cli.Write(nil)
+		if !c.sentFB {
+			r.cls["zero-chunk-before-first-byte"] = true
+		} else {
+			r.cls["zero-chunk-behind-first-byte"] = true
+		}
+		if strict && before == 0 && !c.srv.IsClosed() {
+			synctest.Wait()
+			r.closeSinceWait = false
+			r.cls["strict:zero-chunk-keeps-waiting"] = true
+			if n := len(r.deliveries(op.i)); n != 0 || c.srv.IsClosed() {
+				r.failf("conn%d has not sent a byte yet (only a zero-length chunk), yet delivered=%d closed=%v", op.i, n, c.srv.IsClosed())
+			}
+		}
 	case "abort":
 		c := r.conns[op.i]
 		if !c.injected || c.finished {
 			note("skip")
 			return
 		}
+		if !c.sentFB && c.spec.zpre > 0 {
+			_, _ = c.cli.Write(nil)
+			r.cls["zero-chunk-then-eof"] = true
+		}
 		_ = c.cli.Close()
 		c.finished = true
 		if !c.sentFB {
 			r.cls["closed-before-first-byte"] = true
 		}
+	}
+}
+
+// sendRest writes the bytes behind the first byte, with the connection's zero-length chunks in front.
+func (r *v18MRun) sendRest(c *v18MConn) {
+	for z := 0; z < c.spec.zmid; z++ {
+		_, _ = c.cli.Write(nil)
+		r.cls["zero-chunk-behind-first-byte"] = true
+	}
+	if len(c.spec.body) > 0 {
+		_, _ = c.cli.Write(c.spec.body)
+		c.sent = append(c.sent, c.spec.body...)
 	}
 }
 
@@ -670,9 +723,13 @@ func v18RunMCase(c *v18MCase) *v18MRun {
 			if mc.sentFB {
 				_ = mc.cli.CloseWrite()
 			} else if mc.spec.late {
-				b := append([]byte{mc.spec.fb}, mc.spec.body...)
-				_, _ = mc.cli.Write(b)
-				mc.sent, mc.sentFB = b, true
+				for z := 0; z < mc.spec.zpre; z++ {
+					_, _ = mc.cli.Write(nil)
+					r.cls["zero-chunk-before-first-byte"] = true
+				}
+				_, _ = mc.cli.Write([]byte{mc.spec.fb})
+				mc.sent, mc.sentFB = append(mc.sent, mc.spec.fb), true
+				r.sendRest(mc)
 				_ = mc.cli.CloseWrite()
 				r.cls["first-byte-at-the-end"] = true
 			} else {
@@ -769,7 +826,7 @@ func TestVerifC18_MuxDispatch(t *testing.T) {
 			fp.WriteByte(' ')
 		}
 		for _, sp := range c.conns {
-			fmt.Fprintf(&fp, "%d/%d/%v,", v18WantKind(sp.fb), len(sp.body), sp.pattern)
+			fmt.Fprintf(&fp, "%d/%d/%v/%d/%d,", v18WantKind(sp.fb), len(sp.body), sp.pattern, sp.zpre, sp.zmid)
 		}
 		var classes []string
 		for k := range r.cls {
@@ -844,6 +901,71 @@ func TestVerifC18_Regress_CloseWhilePending(t *testing.T) {
 			})
 			if fail != "" {
 				t.Fatalf("C18: shared port: %s", fail)
+			}
+		}
+	}
+}
+
+// "All chunkings including zero-length reads": the connection's first delivery
+// is a zero-length chunk, so dispatch's own Read returns (0, nil). That is
+// neither a byte nor an end: the connection has to stay pending until a real
+// byte arrives and then go to the handler that byte selects, without a
+// spurious byte in front; a zero-length chunk followed by EOF must be closed.
+func TestVerifC18_Regress_ZeroLengthFirstRead(t *testing.T) {
+	st := newVStats("TestVerifC18_Regress_ZeroLengthFirstRead")
+	defer st.Flush()
+	for _, fb := range []byte{5, 'G'} {
+		for zeros := 1; zeros <= 3; zeros++ {
+			for _, eof := range []bool{false, true} {
+				var fail string
+				synctest.Test(t, func(t *testing.T) {
+					c := &v18MCase{conns: []v18MConnSpec{{fb: fb, body: []byte{1, 0, 5, 'x'}, pattern: []int{1}}}}
+					r := &v18MRun{cls: map[string]bool{}, prevSettled: true}
+					cli, srv := v18NewPair("m0", "127.0.0.1:40000", "127.0.0.1:1080")
+					r.conns = append(r.conns, &v18MConn{spec: c.conns[0], cli: cli, srv: srv})
+					r.step(v18MOp{kind: "listen", k: v18KSocks, with: true, settle: true})
+					r.step(v18MOp{kind: "listen", k: v18KHTTP, with: true, settle: true})
+					r.step(v18MOp{kind: "conn", i: 0, settle: true})
+					for z := 0; z < zeros; z++ {
+						r.step(v18MOp{kind: "zero", i: 0, settle: true})
+					}
+					if eof {
+						_ = cli.CloseWrite()
+						synctest.Wait()
+						if n := len(r.deliveries(0)); n != 0 || !srv.IsClosed() {
+							r.failf("zero-length chunk(s) then EOF, no byte ever sent: delivered=%d closed=%v", n, srv.IsClosed())
+						}
+					} else {
+						r.step(v18MOp{kind: "first", i: 0, with: true, settle: true})
+						synctest.Wait()
+						ds := r.deliveries(0)
+						if len(ds) != 1 {
+							r.failf("delivered %d times", len(ds))
+						} else {
+							r.mu.Lock()
+							got, kind := ds[0].got, ds[0].kind
+							r.mu.Unlock()
+							if kind != v18WantKind(fb) || !bytes.Equal(got, r.conns[0].sent) {
+								r.failf("first byte %02x behind %d zero-length chunk(s): handed to the %s sub-listener, which read %x; client sent %x", fb, zeros, v18KName[kind], got, r.conns[0].sent)
+							}
+						}
+					}
+					fail = r.fail
+					for _, s := range r.subs {
+						_ = s.l.Close()
+					}
+					_ = cli.Close()
+					for _, g := range r.mgr.gens {
+						_ = g.base.Close()
+					}
+					synctest.Wait()
+				})
+				st.Case(true, fmt.Sprintf("%02x/%d/%v", fb, zeros, eof), []string{"regress"}, func() string {
+					return fmt.Sprintf("listen both ; conn ; %d zero-length chunk(s) ; eof=%v / first byte %02x", zeros, eof, fb)
+				})
+				if fail != "" {
+					t.Fatalf("C18: shared port: %s", fail)
+				}
 			}
 		}
 	}
